@@ -1,14 +1,23 @@
+mod check;
 mod conv;
 mod env;
 mod exec;
 mod hist;
 mod mockserver;
+mod mon;
+mod monitors;
 mod profile;
+mod props;
 mod refserver;
 mod rng;
+mod seg;
 mod world;
 
+use serde_json::{json, Value};
 use std::cell::RefCell;
+use std::collections::BTreeSet;
+use std::sync::Mutex;
+use std::time::{Duration, Instant};
 
 thread_local! {
     static LAST_PANIC: RefCell<Option<exec::PanicInfo>> = const { RefCell::new(None) };
@@ -33,34 +42,222 @@ fn install_panic_hook() {
     }));
 }
 
-/// Run one simulated execution on a fresh OS thread (rand's thread_rng keeps thread-local
-/// state, so a fresh thread re-seeds it from the run's entropy stream).
-pub fn run_in_thread(p: &profile::Profile, cfg: &exec::RunCfg) -> exec::RunOut {
-    let p = p.clone();
-    let cfg = cfg.clone();
-    std::thread::Builder::new()
-        .stack_size(16 << 20)
-        .spawn(move || exec::run_sm(&p, &cfg).0)
-        .unwrap()
-        .join()
-        .expect("run thread")
+fn verif_seed() -> u64 {
+    std::env::var("VERIF_SEED").ok().and_then(|s| s.trim().parse::<u64>().ok()).unwrap_or(1)
+}
+
+fn workers() -> usize {
+    std::env::var("VERIF_WORKERS").ok().and_then(|s| s.parse().ok()).unwrap_or(16)
+}
+
+fn out_dir() -> String {
+    std::env::var("VERIF_OUT").unwrap_or_else(|_| "/verif/out".to_string())
+}
+
+fn cmd_check(id: &str, tier: &str) -> i32 {
+    let t0 = Instant::now();
+    let seed = verif_seed();
+    let defs = props::all();
+    let def = match defs.iter().find(|d| d.id == id) {
+        Some(d) => d,
+        None => {
+            eprintln!("unknown property {id}");
+            return 2;
+        }
+    };
+    let batches = (def.batches)(tier);
+    let budget = if tier == "thorough" { 1500 } else { 100 };
+    let deadline = t0 + Duration::from_secs(std::env::var("VERIF_BUDGET_S").ok().and_then(|s| s.parse().ok()).unwrap_or(budget));
+    let agg = Mutex::new(check::Agg::default());
+    for b in &batches {
+        check::run_batch(seed, b, workers(), deadline, &agg);
+    }
+    let mut agg = agg.into_inner().unwrap();
+    let known = check::load_known("/verif/KNOWN_FINDINGS.txt");
+    let mut exit = 0;
+    if !agg.harness_errors.is_empty() {
+        for e in agg.harness_errors.iter().take(5) {
+            eprintln!("HARNESS-ERROR {e}");
+        }
+        exit = 2;
+    }
+    // group violations: known findings vs new; minimise the first of each (rule) class
+    let mut seen_rules: BTreeSet<String> = BTreeSet::new();
+    let mut known_printed: BTreeSet<String> = BTreeSet::new();
+    let mut n_viol = 0;
+    let violations = std::mem::take(&mut agg.violations);
+    for (bname, idx, v, _strata) in &violations {
+        if let Some((p, _r, _s, text)) = known.matches(v) {
+            let line = format!("KNOWN-FINDING: property={p} {text}");
+            if known_printed.insert(line.clone()) {
+                println!("{line}");
+            }
+            continue;
+        }
+        n_viol += 1;
+        if !seen_rules.insert(v.rule.clone()) {
+            continue;
+        }
+        let b = batches.iter().find(|b| &b.name == bname).unwrap();
+        let cfg = check::make_cfg(seed, b, *idx);
+        let f = check::minimise(b, &cfg, &v.rule, Duration::from_secs(60)).unwrap_or(check::Failing {
+            cfg: cfg.clone(),
+            violation: v.clone(),
+            decisions: vec![],
+            hist_hash: String::new(),
+        });
+        let path = check::write_replay(&format!("{}/replays", out_dir()), id, seed, b, *idx, &f, tier);
+        println!("VIOLATION property={} replay={}", id, path);
+        println!("  rule={} site={} detail={}", f.violation.rule, f.violation.site, f.violation.detail);
+        exit = exit.max(1);
+    }
+    let wall = t0.elapsed().as_secs_f64();
+    let runs_per_hour = if wall > 0.0 { (agg.runs as f64 / wall * 3600.0) as u64 } else { 0 };
+    let evidence = json!({
+        "property_id": id,
+        "tier": tier,
+        "seed": seed,
+        "level": def.level,
+        "coverage": {
+            "evaluations": agg.runs,
+            "distinct_nontrivial": agg.sigs.len(),
+            "rule": def.rule_text,
+            "samples": agg.samples,
+            "simulated_runs": agg.runs,
+            "runs_per_hour": runs_per_hour,
+            "simulated_time_s": (agg.sim_ns / 1_000_000_000) as u64,
+            "scheduler_steps": agg.steps,
+            "distinct_interleavings": agg.interleavings.len(),
+            "interleaving_measure": "hash of the per-run sequence of observation kinds (scheduler decisions and environment outcomes)",
+            "faults_fired": agg.stats,
+            "rule_evaluations": agg.counters,
+            "real_code": def.real_code,
+            "stubbed": def.stub_code,
+            "batches": batches.iter().map(|b| json!({"name": b.name, "runs_planned": b.runs})).collect::<Vec<Value>>(),
+            "determinism": "see /verif/evidence/determinism.json (written by ./check determinism)",
+        },
+        "assumptions": def.assumptions,
+        "wall_s": wall,
+        "violations": n_viol,
+    });
+    let _ = std::fs::create_dir_all("/verif/evidence");
+    std::fs::write(format!("/verif/evidence/{id}.json"), serde_json::to_string_pretty(&evidence).unwrap()).expect("write evidence");
+    eprintln!(
+        "{id} {tier}: runs={} distinct={} interleavings={} violations={} wall={:.1}s",
+        agg.runs,
+        agg.sigs.len(),
+        agg.interleavings.len(),
+        n_viol,
+        wall
+    );
+    for (k, v) in &agg.counters {
+        eprintln!("   {k}: {v}");
+    }
+    exit
+}
+
+fn cmd_replay(path: &str) -> i32 {
+    let s = match std::fs::read_to_string(path) {
+        Ok(s) => s,
+        Err(e) => {
+            eprintln!("cannot read {path}: {e}");
+            return 2;
+        }
+    };
+    let doc: Value = serde_json::from_str(&s).expect("replay json");
+    let id = doc["property"].as_str().unwrap();
+    let tier = doc["tier"].as_str().unwrap_or("quick");
+    let defs = props::all();
+    let def = defs.iter().find(|d| d.id == id).expect("property");
+    let batches = (def.batches)(tier);
+    let bname = doc["batch"].as_str().unwrap();
+    let b = batches.iter().find(|b| b.name == bname).expect("batch");
+    let profile: profile::Profile = serde_json::from_value(doc["profile"].clone()).expect("profile");
+    let mut cfg = exec::RunCfg { seed: doc["run_seed"].as_u64().unwrap(), ..Default::default() };
+    cfg.default_zero = doc["default_zero"].as_bool().unwrap_or(false);
+    cfg.entropy_seed = doc["entropy_seed"].as_u64();
+    for (k, v) in doc["overrides"].as_object().unwrap() {
+        cfg.overrides.insert(k.clone(), v.as_u64().unwrap());
+    }
+    let (out, mon) = check::exec_in_thread(b.exec, &profile, &cfg).expect("run");
+    let rule = doc["rule"].as_str().unwrap();
+    let hash = hist::history_hash(&out.hist);
+    let same_hash = Some(hash.as_str()) == doc["history_sha256"].as_str();
+    match mon.violations.iter().find(|v| v.rule == rule) {
+        Some(v) => {
+            println!("REPRODUCED rule={} site={} detail={}", v.rule, v.site, v.detail);
+            println!("history_sha256={} ({})", hash, if same_hash { "identical to the recorded run" } else { "DIFFERS from the recorded run" });
+            if std::env::var("VERIF_DUMP").is_ok() {
+                for r in &out.hist {
+                    println!("  {}", serde_json::to_string(r).unwrap());
+                }
+            }
+            if same_hash {
+                1
+            } else {
+                2
+            }
+        }
+        None => {
+            println!("NOT REPRODUCED: rule {rule} did not fail (violations: {:?})", mon.violations.iter().map(|v| &v.rule).collect::<Vec<_>>());
+            0
+        }
+    }
+}
+
+fn cmd_determinism(n: u64) -> i32 {
+    // run every batch's first n indices; print one line per run: batch idx hash
+    let seed = verif_seed();
+    for def in props::all() {
+        for b in (def.batches)("quick") {
+            for idx in 0..n {
+                let cfg = check::make_cfg(seed, &b, idx);
+                match check::exec_in_thread(b.exec, &b.profile, &cfg) {
+                    Ok((out, mon)) => println!("{} {} {} v={}", b.name, idx, hist::history_hash(&out.hist), mon.violations.len()),
+                    Err(e) => println!("{} {} ERROR {e}", b.name, idx),
+                }
+            }
+        }
+    }
+    0
+}
+
+fn cmd_dump(id: &str, bname: &str, idx: u64) -> i32 {
+    let seed = verif_seed();
+    for def in props::all() {
+        if def.id != id {
+            continue;
+        }
+        for b in (def.batches)("quick") {
+            if b.name != bname {
+                continue;
+            }
+            let cfg = check::make_cfg(seed, &b, idx);
+            let (out, mon) = check::exec_in_thread(b.exec, &b.profile, &cfg).expect("run");
+            for r in &out.hist {
+                println!("{}", serde_json::to_string(r).unwrap());
+            }
+            for v in &mon.violations {
+                println!("VIOL {} {} {}", v.rule, v.site, v.detail);
+            }
+            println!("panic={:?}", out.panic);
+        }
+    }
+    0
 }
 
 fn main() {
     install_panic_hook();
     let args: Vec<String> = std::env::args().collect();
-    let n: u64 = args.get(2).and_then(|s| s.parse().ok()).unwrap_or(3);
-    let mut p = profile::Profile::base("smoke");
-    p.net.transport = 50;
-    p.net.status = 50;
-    p.net.retry_after = 100;
-    for seed in 0..n {
-        let out = run_in_thread(&p, &exec::RunCfg { seed, ..Default::default() });
-        println!("seed {seed}: steps={} recs={} vt={} panic={:?} hash={}", out.steps, out.hist.len(), out.vt_end, out.panic, hist::history_hash(&out.hist));
-        if args.get(1).map(|s| s == "dump").unwrap_or(false) {
-            for r in &out.hist {
-                println!("  {}", serde_json::to_string(r).unwrap());
-            }
+    let code = match args.get(1).map(|s| s.as_str()) {
+        Some("check") => cmd_check(&args[2], args.get(3).map(|s| s.as_str()).unwrap_or("quick")),
+        Some("replay") => cmd_replay(&args[2]),
+        Some("determinism") => cmd_determinism(args.get(2).and_then(|s| s.parse().ok()).unwrap_or(50)),
+        Some("dump") => cmd_dump(&args[2], &args[3], args[4].parse().unwrap()),
+        _ => {
+            eprintln!("usage: sim check <Cxx> quick|thorough | replay <file> | determinism <n> | dump <Cxx> <batch> <idx>");
+            2
         }
-    }
+    };
+    std::process::exit(code);
 }
